@@ -362,7 +362,7 @@ def run(prog: Program, res: Result, tier: str) -> None:
             "dtype": lambda t: "dtype" in t and "uint8" in t,
             "nbits": lambda t: "nbits" in t and ("not in" in t or "in" in t),
             "bitorder": lambda t: "bitorder" in t,
-            "size": lambda t: ".size" in t and "bitfact" in t,
+            "size": lambda t: ".size" in t and "bitfact" in t and "%" not in t,
         }
         for gname, pred in wanted.items():
             hit = [g for g in guards if pred(norm(g.test))]
@@ -385,6 +385,18 @@ def run(prog: Program, res: Result, tier: str) -> None:
             else:
                 res.bad("R4", w, g, f"{wname}: guard on {gname} does not protect the kernel call (not dominating, not "
                         f"an exact size test, or not raising ValueError)", key=key)
+        # no other guard may reject an input the property says is valid
+        known = list(wanted.values())
+        for g in guards:
+            t = norm(g.test)
+            if any(pred(t) for pred in known):
+                continue
+            key = f"{wname}:extra-guard:{t[:40]}"
+            if t in ("array.size % bitfact != 0", "array.size % bitfact"):
+                res.ok("R4", w, g, "ragged input (not a whole number of bytes) is rejected explicitly", key=key)
+            else:
+                res.bad("R4", w, g, f"{wname}: an additional guard `{t}` raises for inputs that are valid by the property (every dtype-uint8 array of "
+                        f"in-range samples whose size is a multiple of 8/nbits must round-trip)", key=key)
         # same result with and without a supplied buffer: the kernel call post-dominates both branches
         allocs = [s for s in body_walk(w.node) if isinstance(s, ast.Assign) and isinstance(s.value, ast.Call)
                   and dotted(s.value.func) in ("np.zeros", "np.empty")]
@@ -541,7 +553,13 @@ MUTANTS = [
      "old": "    if array.dtype != np.uint8:\n        msg = f\"Input array must be uint8, got {array.dtype}\"\n        raise ValueError(msg)\n    if nbits not in {1, 2, 4}:\n        msg = f\"nbits must be 1, 2, or 4, got {nbits}\"\n        raise ValueError(msg)\n    if (not bitorder) or (bitorder[0] not in {\"b\", \"l\"}):\n        msg = f\"bitorder must be 'big' or 'little', got {bitorder}\"\n        raise ValueError(msg)\n    bitorder_str = \"big\" if bitorder[0] == \"b\" else \"little\"\n    bitfact = 8 // nbits\n    if unpacked is None:",
      "new": "    if nbits not in {1, 2, 4}:\n        msg = f\"nbits must be 1, 2, or 4, got {nbits}\"\n        raise ValueError(msg)\n    if (not bitorder) or (bitorder[0] not in {\"b\", \"l\"}):\n        msg = f\"bitorder must be 'big' or 'little', got {bitorder}\"\n        raise ValueError(msg)\n    bitorder_str = \"big\" if bitorder[0] == \"b\" else \"little\"\n    bitfact = 8 // nbits\n    if unpacked is None:"},
 ]
+MUTANTS += [
+    {"id": "c03-pack-wrong-ragged-guard", "file": Bf, "expect": "C03.R4",
+     "old": "    bitfact = 8 // nbits\n    if packed is None:", "new": "    bitfact = 8 // nbits\n    if array.size % nbits != 0:\n        msg = \"ragged\"\n        raise ValueError(msg)\n    if packed is None:"},
+]
 TWINS = [
+    {"id": "c03-twin-ragged-guard", "file": Bf,
+     "old": "    bitfact = 8 // nbits\n    if packed is None:", "new": "    bitfact = 8 // nbits\n    if array.size % bitfact != 0:\n        msg = \"ragged\"\n        raise ValueError(msg)\n    if packed is None:"},
     {"id": "c03-twin-unroll", "file": K,
      "old": "        for jj in range(8):\n            unpacked[pos + jj] = (array[ii] >> jj) & 1",
      "new": "        byte = array[ii]\n        for jj in range(8):\n            unpacked[jj + pos] = (array[ii] >> jj) & 0x01"},
